@@ -2,6 +2,9 @@ import OmbottModel.Model.RouteUrl
 import OmbottModel.Lemmas.RouteUrlDom
 import OmbottModel.Lemmas.RouteUrlTree
 import OmbottModel.Lemmas.RouteUrlParse
+import OmbottModel.Lemmas.RouterBuiltinEnv
+import OmbottModel.Lemmas.RouterBuiltinFloat
+import OmbottModel.Gen.Routerbuiltin
 /-!
 C19 — Building a URL from matched parameters leads back to the same match.
 Property theorems only; helper lemmas live in `Lemmas/RouteUrl*.lean`.
@@ -19,6 +22,15 @@ Clauses of the property
     for the plain wildcard (`stable_plain_wildcard`) and for `int` (`stable_int_wildcard`),
     which gives `url_rematch_partial` without any hypothesis on filters for rules made of plain
     and `int` wildcards.
+
+  * with the built-in filters made concrete (`Model/RouterBuiltinEnv.lean`): `stable_path_wildcard`,
+    `stable_float_wildcard`, and `url_rematch_builtin` / `url_rematch_tree_builtin` — no hypothesis on
+    filters for rules of plain / `int` / `float` / `path` wildcards, only decidable side conditions on
+    the rule (`builtinOnly`, `convAfterTok`) and on the matched values (`sideOK`); `AllStable` stays
+    the named assumption for user regular expressions (`re`) only.  What is still taken on trust for
+    `float`: that `float(text)` of a numeral of at most 15 significant digits is that numeral (`repr`
+    shows its digits) — a fact about IEEE-754 binary64, tied by the probe table and by differential
+    runs; beyond 15 digits the converter is a parameter and the side condition is checked on its value.
 
 Known findings carried as explicit decidable hypotheses of `url_rematch_partial`:
   * `plainIntOnly` excludes `float` wildcards (findings `C19:url:float-text-changes-neighbour-match`
@@ -86,9 +98,10 @@ then `Route.url` called with those values (anonymous ones positionally, the othe
 returns a URL which the rule matches with the same values — provided every wildcard is stable
 where it stands (`AllStable`: the formatted value, followed by the URL built for the rest of
 the rule, is accepted by the wildcard's filter with the same value, consuming exactly the
-formatted text).  `AllStable` is the named assumption for `re`/`path`/`float` wildcards; for
+formatted text).  `AllStable` is the named assumption for user regular expressions (`re`); for
 plain and `int` wildcards it follows from `stable_plain_wildcard`/`stable_int_wildcard`
-(`stableAt_of_stable`). -/
+(`stableAt_of_stable`), for `path` and `float` wildcards see `stable_path_wildcard`,
+`stable_float_wildcard` and `url_rematch_builtin`. -/
 theorem url_rematch (env : FilterEnv) (fenv : FormatEnv) (r : Route)
     (hd : urlDomain r = true) (hsel : selFree r = true) (hst : AllStable env fenv r.syms)
     (path : Str) (vs : List Val) (hm : matchRule env r.syms path = some vs) :
@@ -129,9 +142,11 @@ theorem text_filter_keeps_head (env : FilterEnv) (fenv : FormatEnv) (g : Fid) (h
             matchRule env r.syms u = some vs
    It is FALSE on the current tree (section `Witness`: canonical `int` text `-0 -> 0` after a
    digit-eating wildcard; canonical `float` text `5 -> 5.0` next to a greedy `path` filter;
-   `float` overflow to `inf`), so it is proved in two parts: `url_rematch` keeps `AllStable` as
-   the per-wildcard hypothesis (exercised for `re`/`path`/`float` by the correspondence and the
-   search), `url_rematch_partial` discharges it for plain and `int` wildcards. -/
+   `float` overflow to `inf`), so it is proved in parts: `url_rematch` keeps `AllStable` as
+   the per-wildcard hypothesis (needed for user regular expressions, `re`, only);
+   `url_rematch_partial` discharges it for plain and `int` wildcards; `url_rematch_builtin` (section
+   `Builtin` below) discharges it for plain / `int` / `float` / `path` wildcards under decidable side
+   conditions which are exactly the shapes of the recorded findings. -/
 
 /-- **`url_rematch_partial`**: `url_rematch` without any hypothesis on filters, for rules whose
 wildcards are plain or `int` (decidable `plainIntOnly`) and in which no `int` wildcard directly
@@ -346,5 +361,310 @@ example : plainIntOnly [.tok (some "float(None)".toList)] = false ∧
   decide
 
 end Witness
+
+/-! ### the built-in filters made concrete (`Model/RouterBuiltinEnv.lean`)
+
+`withBuiltin fc env` computes the handlers of `int`, `float`, `path` (`env` is consulted for user
+regular expressions only; `fc` is `float(text)` for numerals of more than 15 significant digits),
+`withFloatFmt fenv` computes the `float` formatter.  The driver lines `routeurl rt`/`url` run exactly
+these. -/
+section Builtin
+open Ombott.Builtins
+
+/-- the concrete `float` formatter is the live `_float_out` on the probed values (both notations
+of `repr`, subnormal and largest doubles, 17-digit values) -/
+theorem builtin_float_fmt_agrees :
+    (Gen.rbFloatFmt.all fun p =>
+      floatFmt (.conv ("float:".toList ++ p.1)) == some p.2) = true := by
+  decide +kernel
+
+/-- **`stable_path_wildcard`.**  A `path` wildcard whose look-ahead is the literal run that follows
+it in the rule (`fidArgs g = litRun p'`, what the parser configures) and which is not directly
+followed by another wildcard is stable where it stands: if it matched `t = path.take r.n` in front
+of the rest of the path, and the rest of the rule matches the URL `rest'` built for it with the same
+values, then `url` puts `t` itself into the URL (identity, accepted by the sanity check in front of
+the literal) and `t ++ rest'` is matched again with exactly `t` — **provided the look-ahead literal
+does not stand again in `rest'` at a position `1 … (length of the first line of rest')`**
+(`laterLit (litRun p') rest' = false`, decidable).  This is the precise condition: the greedy `.+`
+backtracks from the end of the line to the *last* position in front of the literal. -/
+theorem stable_path_wildcard (fc : FloatConv) (env : FilterEnv) (fenv : FormatEnv) (g : Fid) (p' : List Sym)
+    (hg : isPathFid g = true) (hconf : fidArgs g = litRun p') (hnt : startsWithTok p' = false)
+    (path : Str) (r : FilterRes) (vs : List Val) (rest' : Str) (hne : path ≠ [])
+    (ht : tokRes (withBuiltin fc env) (some g) path = some r)
+    (hm : matchRule (withBuiltin fc env) p' (path.drop r.n) = some vs)
+    (hb : buildUrl (withBuiltin fc env) fenv p' vs = .ok rest')
+    (hr : matchRule (withBuiltin fc env) p' rest' = some vs)
+    (hside : laterLit (litRun p') rest' = false) :
+    ∃ u, piece (withBuiltin fc env) fenv (some g) (litRun p') r.val = .ok (.str u) ∧ u ++ rest' ≠ [] ∧
+      ∃ r', tokRes (withBuiltin fc env) (some g) (u ++ rest') = some r' ∧ r'.val = r.val ∧ r'.n = u.length :=
+  stableAtSide_path fc env fenv g p' hg hconf hnt path r vs rest' hne ht hm hb hr
+    (by simp [tokSide, not_int_of_path hg, not_float_of_path hg, hg, hside])
+
+/-- the side condition of `stable_path_wildcard` **holds by itself when the text after the wildcard
+is unchanged** in the URL: if the rest of the rule has no converting wildcard (`textOnly`: plain and
+`path` wildcards only), the URL built for it is the rest of the path, in which the literal cannot
+stand again because the original match was the longest.  So `StableAt` holds unconditionally. -/
+theorem stable_path_wildcard_unchanged_followers (fc : FloatConv) (env : FilterEnv) (fenv : FormatEnv) (g : Fid)
+    (p' : List Sym) (hg : isPathFid g = true) (hconf : fidArgs g = litRun p') (hnt : startsWithTok p' = false)
+    (hb' : builtinOnly p' = true) (htxt : textOnly p' = true) :
+    StableAt (withBuiltin fc env) fenv (some g) p' := by
+  intro path r vs rest' hne ht hm hb hr
+  have hbu := buildUrl_textOnly fc env fenv p' _ vs hb' htxt hm
+  rw [hbu] at hb
+  cases hb
+  have ht' : pathFilter (fidArgs g) path = some r := by rw [← withBuiltin_path fc env hg]; exact ht
+  have hl := laterLit_orig ht'
+  rw [hconf] at hl
+  exact stable_path_wildcard fc env fenv g p' hg hconf hnt path r vs _ hne ht hm hbu hr hl
+
+/-- **`stable_float_wildcard`.**  A `float` wildcard is stable where it stands for every value
+whose formatted text is read back, whole, as the same value and either has a decimal point or is
+not followed in the URL by `.` and a digit (`floatSide`, decidable on the value and the URL built
+for the rest of the rule; implied by `floatValOK`, which `float_value_ok_exact` proves for every
+numeral of at most 15 significant digits below 1e16), when the wildcards directly after it keep the
+head of their text. -/
+theorem stable_float_wildcard (fc : FloatConv) (env : FilterEnv) (fenv : FormatEnv) (g : Fid) (p' : List Sym)
+    (hg : isFloatFid g = true) (hrun : HeadRun (withBuiltin fc env) (withFloatFmt fenv) p')
+    (path : Str) (r : FilterRes) (vs : List Val) (rest' : Str) (hne : path ≠ [])
+    (ht : tokRes (withBuiltin fc env) (some g) path = some r)
+    (hm : matchRule (withBuiltin fc env) p' (path.drop r.n) = some vs)
+    (hb : buildUrl (withBuiltin fc env) (withFloatFmt fenv) p' vs = .ok rest')
+    (hr : matchRule (withBuiltin fc env) p' rest' = some vs)
+    (hside : floatSide fc r.val rest' = true) :
+    ∃ u, piece (withBuiltin fc env) (withFloatFmt fenv) (some g) (litRun p') r.val = .ok (.str u) ∧ u ++ rest' ≠ [] ∧
+      ∃ r', tokRes (withBuiltin fc env) (some g) (u ++ rest') = some r' ∧ r'.val = r.val ∧ r'.n = u.length :=
+  stableAtSide_float fc env fenv g p' hg hrun path r vs rest' hne ht hm hb hr
+    (by simp [tokSide, not_int_of_float hg, hg, hside])
+
+/-- **`url_rematch_builtin`**: `url_rematch` with **no hypothesis on filters** for rules whose
+wildcards are plain, `int`, `float` or `path` (`builtinOnly`: a `path` wildcard looks ahead for the
+literal run that follows it and is not directly followed by another wildcard) and in which no
+converting wildcard directly follows another wildcard (`convAfterTok`).  The remaining hypotheses
+are decidable side conditions on the matched values (`sideOK`):
+  * every `float` value meets `floatSide` (its formatted text reads back as the same value, and has
+    a decimal point or is not followed by `.` and a digit in the URL),
+  * after no `path` wildcard does the literal it looks ahead for stand again, before the first
+    newline, in the URL built for the rest of the rule (`laterLit`; automatic when no converting
+    wildcard follows the `path` wildcard, `url_rematch_builtin_static`).
+Both exclusions are the known findings `C19:url:float-…`/`int-text-changes-neighbour-match` (section
+`WitnessBuiltin`). -/
+theorem url_rematch_builtin (fc : FloatConv) (env : FilterEnv) (fenv : FormatEnv) (r : Route)
+    (hd : urlDomain r = true) (hsel : selFree r = true)
+    (hb : builtinOnly r.syms = true) (hadj : convAfterTok r.syms = false)
+    (path : Str) (vs : List Val) (hm : matchRule (withBuiltin fc env) r.syms path = some vs)
+    (hside : sideOK fc (withBuiltin fc env) (withFloatFmt fenv) r.syms vs = true) :
+    ∃ u, routeUrl (withBuiltin fc env) (withFloatFmt fenv) r (splitArgs r.params vs).1 (splitArgs r.params vs).2 = .ok u ∧
+      matchRule (withBuiltin fc env) r.syms u = some vs := by
+  have hs : r.symsOut = r.syms := by simpa [selFree] using hsel
+  have hv : vs.length = tokCount r.symsOut := by rw [hs]; exact matchRule_length hm
+  rw [routeUrl_matched (withBuiltin fc env) (withFloatFmt fenv) r hd vs hv, hs]
+  exact rematch_spec_side (allStableSide_builtin fc env fenv r.syms hb hadj) hm hside
+
+/-- `url_rematch_builtin` with the side conditions discharged statically: no `path` wildcard is
+followed later in the rule by a converting wildcard (`pathThenText`); what is left is the `float`
+part (`floatsOK`: every `float` value is `floatValOK`) -/
+theorem url_rematch_builtin_static (fc : FloatConv) (env : FilterEnv) (fenv : FormatEnv) (r : Route)
+    (hd : urlDomain r = true) (hsel : selFree r = true)
+    (hb : builtinOnly r.syms = true) (hadj : convAfterTok r.syms = false) (hpt : pathThenText r.syms = true)
+    (path : Str) (vs : List Val) (hm : matchRule (withBuiltin fc env) r.syms path = some vs)
+    (hfl : floatsOK fc r.syms vs = true) :
+    ∃ u, routeUrl (withBuiltin fc env) (withFloatFmt fenv) r (splitArgs r.params vs).1 (splitArgs r.params vs).2 = .ok u ∧
+      matchRule (withBuiltin fc env) r.syms u = some vs :=
+  url_rematch_builtin fc env fenv r hd hsel hb hadj path vs hm
+    (sideOK_static fc env (withFloatFmt fenv) r.syms path vs hb hpt hm hfl)
+
+/-- **`float_value_ok_exact`**: the `float` side condition holds by itself for every numeral the
+model converts itself.  If the text matched by `-?\d+(\.\d+)?` has at most 15 significant digits
+(`exactDec`) and its decimal point stands after at most 16 digits (value below 1e16), then the
+handler's value is `repr` of that numeral, the formatter `format(Decimal(repr(x)), 'f')` gives its
+positional text — which has a decimal point — and the handler reads that text back, whole, as the
+same value.  A theorem about the concrete converter/formatter pair (text manipulation only). -/
+theorem float_value_ok_exact (fc : FloatConv) (s : Str) (l : FloatLex) (hl : floatLex s = some l)
+    (he : exactDec l.dec = true) (hpt : l.dec.pt ≤ 16) :
+    floatFilter fc s = some ⟨floatVal l.dec, l.len, none⟩ ∧ floatValOK fc (floatVal l.dec) = true := by
+  refine ⟨?_, floatValOK_exact fc hl he hpt⟩
+  unfold floatFilter
+  rw [hl]
+  simp [he]
+
+/-- **`url_rematch_builtin_exact`**: `url_rematch` for rules of plain / `int` / `float` / `path`
+wildcards with **every hypothesis decidable on the rule and the path, none on filters, values or
+URLs**: no converting wildcard directly after another wildcard (`convAfterTok`), no converting
+wildcard anywhere after a `path` wildcard (`pathThenText`: the text after it is then unchanged in
+the URL, and the original match was the longest), and every numeral a `float` wildcard takes from
+the path has at most 15 significant digits and lies below 1e16 (`floatTextsExact`). -/
+theorem url_rematch_builtin_exact (fc : FloatConv) (env : FilterEnv) (fenv : FormatEnv) (r : Route)
+    (hd : urlDomain r = true) (hsel : selFree r = true)
+    (hb : builtinOnly r.syms = true) (hadj : convAfterTok r.syms = false) (hpt : pathThenText r.syms = true)
+    (path : Str) (vs : List Val) (hm : matchRule (withBuiltin fc env) r.syms path = some vs)
+    (hfl : floatTextsExact (withBuiltin fc env) r.syms path = true) :
+    ∃ u, routeUrl (withBuiltin fc env) (withFloatFmt fenv) r (splitArgs r.params vs).1 (splitArgs r.params vs).2 = .ok u ∧
+      matchRule (withBuiltin fc env) r.syms u = some vs :=
+  url_rematch_builtin_static fc env fenv r hd hsel hb hadj hpt path vs hm
+    (floatsOK_of_texts fc env r.syms path vs hm hfl)
+
+/-- **`url_rematch_tree_builtin`**: the same observed where the property observes it, on the tree of
+a router holding only the rule, through C01 (`get_eq_spec`, `insert_wf`, `insert_denote`).  The
+concrete environment has no selectors, so no hypothesis on filters is left. -/
+theorem url_rematch_tree_builtin (fc : FloatConv) (fenv : FormatEnv) (r : Route)
+    (hd : urlDomain r = true) (hsel : selFree r = true)
+    (hb : builtinOnly r.syms = true) (hadj : convAfterTok r.syms = false)
+    (id : Nat) (t : Node) (ht : treeAdd Node.root r.syms id r.params = .ok t)
+    (path : Str) (vs : List Val) (hg : (treeGet (builtinEnv fc) t path).core = some (id, r.params, vs))
+    (hside : sideOK fc (builtinEnv fc) (withFloatFmt fenv) r.syms vs = true) :
+    ∃ u, routeUrl (builtinEnv fc) (withFloatFmt fenv) r (splitArgs r.params vs).1 (splitArgs r.params vs).2 = .ok u ∧
+      (treeGet (builtinEnv fc) t u).core = some (id, r.params, vs) := by
+  have hs := noSel_builtinEnv fc
+  rw [single_rule_get (builtinEnv fc) hs r.syms id r.params t ht path] at hg
+  have hm : matchRule (builtinEnv fc) r.syms path = some vs := by
+    cases h : matchRule (builtinEnv fc) r.syms path with
+    | none => rw [h] at hg; cases hg
+    | some vs' =>
+      rw [h] at hg
+      simp only [Option.map_some, Option.some.injEq, Prod.mk.injEq, true_and] at hg
+      rw [hg]
+  obtain ⟨u, hu, hr⟩ := url_rematch_builtin fc (fun _ _ => none) fenv r hd hsel hb hadj path vs hm hside
+  exact ⟨u, hu, by rw [single_rule_get (builtinEnv fc) hs r.syms id r.params t ht u]; rw [show matchRule (builtinEnv fc) r.syms u = some vs from hr]; rfl⟩
+
+/-- … with any selector-free environment standing for the user-regex filters (what the driver
+runs: the shipped answers are not consulted for a rule of built-in wildcards) -/
+theorem url_rematch_tree_builtin_env (fc : FloatConv) (env : FilterEnv) (hs : NoSel env) (fenv : FormatEnv) (r : Route)
+    (hd : urlDomain r = true) (hsel : selFree r = true)
+    (hb : builtinOnly r.syms = true) (hadj : convAfterTok r.syms = false)
+    (id : Nat) (t : Node) (ht : treeAdd Node.root r.syms id r.params = .ok t)
+    (path : Str) (vs : List Val) (hg : (treeGet (withBuiltin fc env) t path).core = some (id, r.params, vs))
+    (hside : sideOK fc (withBuiltin fc env) (withFloatFmt fenv) r.syms vs = true) :
+    ∃ u, routeUrl (withBuiltin fc env) (withFloatFmt fenv) r (splitArgs r.params vs).1 (splitArgs r.params vs).2 = .ok u ∧
+      (treeGet (withBuiltin fc env) t u).core = some (id, r.params, vs) := by
+  have hs' := noSel_withBuiltin fc env hs
+  rw [single_rule_get (withBuiltin fc env) hs' r.syms id r.params t ht path] at hg
+  have hm : matchRule (withBuiltin fc env) r.syms path = some vs := by
+    cases h : matchRule (withBuiltin fc env) r.syms path with
+    | none => rw [h] at hg; cases hg
+    | some vs' =>
+      rw [h] at hg
+      simp only [Option.map_some, Option.some.injEq, Prod.mk.injEq, true_and] at hg
+      rw [hg]
+  obtain ⟨u, hu, hr⟩ := url_rematch_builtin fc env fenv r hd hsel hb hadj path vs hm hside
+  exact ⟨u, hu, by rw [single_rule_get (withBuiltin fc env) hs' r.syms id r.params t ht u, hr]; rfl⟩
+
+/-! #### non-vacuity of the built-in theorems -/
+section NonVacuityBuiltin
+
+def fc0 : FloatConv := fun _ => .conv "float:?".toList
+
+/-- the route object of a rule text (empty route when it does not parse) -/
+def routeOfRule (rule : String) : Route :=
+  match parseRule (fun _ => none) rule.toList with
+  | .ok p => routeOf rule.toList p
+  | .error _ => { rule := rule.toList, syms := [], params := [], symsOut := [] }
+
+def exPathInt : Route := routeOfRule "/dl/<p:path>.tar/img/<n:int>.png"
+def exFloatPath : Route := routeOfRule "/w/<x:float>/<p:path>"
+
+/-- the hypotheses of `url_rematch_builtin` are met by `/dl/<p:path>.tar/img/<n:int>.png` on a
+path with a decoy occurrence of the literal and a non-canonical integer (the `int` wildcard after
+the `path` wildcard changes its text `007 → 7`, so `pathThenText` is false and the dynamic side
+condition is what holds) -/
+example : urlDomain exPathInt = true ∧ selFree exPathInt = true ∧ builtinOnly exPathInt.syms = true ∧
+    convAfterTok exPathInt.syms = false ∧ pathThenText exPathInt.syms = false ∧
+    matchRule (builtinEnv fc0) exPathInt.syms "dl/a.tar/img/b.tar/img/007.png".toList
+      = some [.str "a.tar/img/b".toList, intVal 7] ∧
+    sideOK fc0 (builtinEnv fc0) (withFloatFmt noFmt) exPathInt.syms [.str "a.tar/img/b".toList, intVal 7] = true := by
+  decide +kernel
+
+/-- … and the conclusion, computed -/
+example :
+    routeUrl (builtinEnv fc0) (withFloatFmt noFmt) exPathInt [] [("p".toList, .str "a.tar/img/b".toList), ("n".toList, intVal 7)]
+      = .ok "dl/a.tar/img/b.tar/img/7.png".toList ∧
+    matchRule (builtinEnv fc0) exPathInt.syms "dl/a.tar/img/b.tar/img/7.png".toList
+      = some [.str "a.tar/img/b".toList, intVal 7] := by
+  decide +kernel
+
+/-- the hypotheses of `url_rematch_builtin_static` (`pathThenText`, `floatsOK`) on
+`/w/<x:float>/<p:path>`, path `w/007.50/a/b`: value `7.5`, URL `w/7.5/a/b` -/
+example : urlDomain exFloatPath = true ∧ selFree exFloatPath = true ∧ builtinOnly exFloatPath.syms = true ∧
+    convAfterTok exFloatPath.syms = false ∧ pathThenText exFloatPath.syms = true ∧
+    matchRule (builtinEnv fc0) exFloatPath.syms "w/007.50/a/b".toList
+      = some [.conv "float:7.5".toList, .str "a/b".toList] ∧
+    floatsOK fc0 exFloatPath.syms [.conv "float:7.5".toList, .str "a/b".toList] = true ∧
+    routeUrl (builtinEnv fc0) (withFloatFmt noFmt) exFloatPath [] [("x".toList, .conv "float:7.5".toList), ("p".toList, .str "a/b".toList)]
+      = .ok "w/7.5/a/b".toList := by
+  decide +kernel
+
+/-- the hypotheses of `url_rematch_builtin_exact` / `float_value_ok_exact` on that rule and path -/
+example : floatTextsExact (builtinEnv fc0) exFloatPath.syms "w/007.50/a/b".toList = true ∧
+    floatTextsExact (builtinEnv fc0) exFloatPath.syms "w/12345678901234567/a".toList = false ∧
+    floatTextsExact (builtinEnv fc0) exFloatPath.syms "w/10000000000000000.0/a".toList = false ∧
+    (floatLex "007.50/a".toList).map (fun l => (l.dec, exactDec l.dec, l.len)) = some (⟨false, "75".toList, 1⟩, true, 6) := by
+  decide +kernel
+
+/-- premises of `stable_path_wildcard` / `stable_float_wildcard`: the handlers accept -/
+example : tokRes (builtinEnv fc0) (some "path(.tar/)".toList) "a.tar/b.tar/c".toList = some ⟨.str "a.tar/b".toList, 7, none⟩ ∧
+    laterLit ".tar/".toList ".tar/c".toList = false ∧ laterLit ".tar/".toList ".tar/c.tar/".toList = true ∧
+    tokRes (builtinEnv fc0) (some "float(None)".toList) "-0012.50/x".toList = some ⟨.conv "float:-12.5".toList, 8, none⟩ ∧
+    floatValOK fc0 (.conv "float:-12.5".toList) = true ∧ floatValOK fc0 (.conv "float:1e-05".toList) = true ∧
+    floatSide fc0 (.conv "float:1e+16".toList) "/x".toList = true ∧ floatSide fc0 (.conv "float:1e+16".toList) ".5".toList = false := by
+  decide +kernel
+
+/-- `url_rematch_tree_builtin`: the rule is added to the empty tree and the lookup hits -/
+example : ∃ t, treeAdd Node.root exPathInt.syms 0 exPathInt.params = .ok t ∧
+    (treeGet (builtinEnv fc0) t "dl/a.tar/img/b.tar/img/007.png".toList).core =
+      some (0, exPathInt.params, [.str "a.tar/img/b".toList, intVal 7]) := by
+  obtain ⟨t, ht⟩ : ∃ t, treeAdd Node.root exPathInt.syms 0 exPathInt.params = .ok t := ⟨_, rfl⟩
+  refine ⟨t, ht, ?_⟩
+  rw [single_rule_get (builtinEnv fc0) (noSel_builtinEnv fc0) exPathInt.syms 0 exPathInt.params t ht]
+  have : matchRule (builtinEnv fc0) exPathInt.syms "dl/a.tar/img/b.tar/img/007.png".toList
+      = some [.str "a.tar/img/b".toList, intVal 7] := by decide +kernel
+  rw [this]; rfl
+
+end NonVacuityBuiltin
+
+/-! #### the excluded shapes really fail (model witnesses; replayed on the real code by the fixed
+correspondence cases of `harness/c19.py`) -/
+section WitnessBuiltin
+
+def wPathInt : Route := routeOfRule "/<p:path>-5<n:int>"
+def wPathFloat : Route := routeOfRule "/x/y<p:path>.<q:float>"
+def wFloatBig : Route := routeOfRule "/<a:float>.<b:int>"
+
+/-- excluded by `sideOK` (`laterLit`): `/<p:path>-5<n:int>` on `a-5-05`.  The `int` wildcard's
+canonical text `-05 → -5` makes the look-ahead literal `-5` stand again in the URL built for the
+rest of the rule (`-5-5`): the greedy `path` wildcard now runs to the later occurrence and the URL
+is not matched at all.  (Finding class `C19:url:int-text-changes-neighbour-match`.) -/
+example : builtinOnly wPathInt.syms = true ∧ convAfterTok wPathInt.syms = false ∧
+    matchRule (builtinEnv fc0) wPathInt.syms "a-5-05".toList = some [.str "a".toList, intVal (-5)] ∧
+    sideOK fc0 (builtinEnv fc0) (withFloatFmt noFmt) wPathInt.syms [.str "a".toList, intVal (-5)] = false ∧
+    laterLit "-5".toList "-5-5".toList = true ∧
+    buildUrl (builtinEnv fc0) (withFloatFmt noFmt) wPathInt.syms [.str "a".toList, intVal (-5)] = .ok "a-5-5".toList ∧
+    matchRule (builtinEnv fc0) wPathInt.syms "a-5-5".toList = none := by
+  decide +kernel
+
+/-- excluded by `sideOK` (`laterLit`): finding `C19:url:float-text-changes-neighbour-match` with the
+concrete handlers — `/x/y<p:path>.<q:float>` on `x/y-3.1.5`: `5 → 5.0` puts the literal `.` into the
+URL of the rest (`.5.0`), the URL is matched with other values -/
+example : builtinOnly wPathFloat.syms = true ∧ convAfterTok wPathFloat.syms = false ∧
+    matchRule (builtinEnv fc0) wPathFloat.syms "x/y-3.1.5".toList = some [.str "-3.1".toList, .conv "float:5.0".toList] ∧
+    sideOK fc0 (builtinEnv fc0) (withFloatFmt noFmt) wPathFloat.syms [.str "-3.1".toList, .conv "float:5.0".toList] = false ∧
+    buildUrl (builtinEnv fc0) (withFloatFmt noFmt) wPathFloat.syms [.str "-3.1".toList, .conv "float:5.0".toList]
+      = .ok "x/y-3.1.5.0".toList ∧
+    matchRule (builtinEnv fc0) wPathFloat.syms "x/y-3.1.5.0".toList
+      = some [.str "-3.1.5".toList, .conv "float:0.0".toList] := by
+  decide +kernel
+
+/-- excluded by `sideOK` (`floatSide`): a value from 1e16 is formatted without a decimal point
+(`10000000000000000.0 → 10000000000000000`), and here `.7` follows: `/<a:float>.<b:int>` on
+`10000000000000000.0.7` builds `10000000000000000.7`, which is not matched -/
+example : builtinOnly wFloatBig.syms = true ∧ convAfterTok wFloatBig.syms = false ∧
+    matchRule (builtinEnv fc0) wFloatBig.syms "10000000000000000.0.7".toList = some [.conv "float:1e+16".toList, intVal 7] ∧
+    sideOK fc0 (builtinEnv fc0) (withFloatFmt noFmt) wFloatBig.syms [.conv "float:1e+16".toList, intVal 7] = false ∧
+    buildUrl (builtinEnv fc0) (withFloatFmt noFmt) wFloatBig.syms [.conv "float:1e+16".toList, intVal 7]
+      = .ok "10000000000000000.7".toList ∧
+    matchRule (builtinEnv fc0) wFloatBig.syms "10000000000000000.7".toList = none := by
+  decide +kernel
+
+end WitnessBuiltin
+
+end Builtin
 
 end Ombott.RouteUrl
